@@ -682,6 +682,26 @@ def setClassConstraints (f : Nat) : M Unit := do
 
 /-! ## collection (`_solve_with_wrapper` up to the solver call) -/
 
+/-- what one function contributes to the solver input: its class constraints and class LMIs if it is a
+leaf, then (for every function) nothing else at this stage -/
+structure FunSent where
+  classCons : List Nat
+  classPsd : List Nat
+  cons : List Nat
+  psd : List Nat
+  isLeaf : Bool
+  deriving Repr
+
+/-- **the order in which `_solve_with_wrapper` sends items** as a pure function of the declared lists:
+metrics (as `objective <= metric` constraints `mcons`), problem constraints, problem LMIs, then per leaf
+function its class constraints and class LMIs, then per function with own constraints or LMIs those
+constraints and LMIs, then the constraints of every partition -/
+def sendOrder (mcons pepCons pepPsd : List Nat) (funs : List FunSent) (partCons : List (List Nat)) : List Sent :=
+  mcons.map Sent.cons ++ pepCons.map Sent.cons ++ pepPsd.map Sent.psd
+    ++ (funs.filter (·.isLeaf)).flatMap (fun f => f.classCons.map Sent.cons ++ f.classPsd.map Sent.psd)
+    ++ (funs.filter (fun f => !f.cons.isEmpty || !f.psd.isEmpty)).flatMap (fun f => f.cons.map Sent.cons ++ f.psd.map Sent.psd)
+    ++ partCons.flatMap (·.map Sent.cons)
+
 def collect : M Unit := do
   let obj ← newLeafE
   modify fun w => { w with objective := some obj }
@@ -692,25 +712,21 @@ def collect : M Unit := do
   for f in leafFuns do setClassConstraints f
   let w ← get
   for p in List.range w.parts.size do addPartitionConstraints p
-  let mut sent : List Sent := []
   let w ← get
+  let mut mcons : List Nat := []
   for m in w.pepMetrics do
     let c ← consLe obj m
-    sent := sent ++ [.cons c]
-  for c in w.pepCons do sent := sent ++ [.cons c]
-  for m in w.pepPsd do sent := sent ++ [.psd m]
-  for f in leafFuns do
-    let fr ← getF f
-    for c in fr.classCons do sent := sent ++ [.cons c]
-    for m in fr.classPsd do sent := sent ++ [.psd m]
-  for f in withCons do
-    let fr ← getF f
-    for c in fr.cons do sent := sent ++ [.cons c]
-    for m in fr.psd do sent := sent ++ [.psd m]
+    mcons := mcons ++ [c]
   let w ← get
-  for p in List.range w.parts.size do
-    let pr ← getPart p
-    for c in pr.cons do sent := sent ++ [.cons c]
-  modify fun w => { w with sent := sent }
+  -- `leafFuns` / `withCons` were computed before the class constraints were generated (as in the source);
+  -- generation never changes leafness nor the own lists, so the flags are those of the current records
+  let funs : List FunSent := (List.range w.funs.size).filterMap (fun h => match w.funs[h]? with
+    | some f => some { classCons := f.classCons, classPsd := f.classPsd, cons := f.cons, psd := f.psd,
+                       isLeaf := leafFuns.contains h }
+    | Option.none => Option.none)
+  let funs := funs.zipIdx.map (fun fi =>
+    if withCons.contains fi.2 then fi.1 else { fi.1 with cons := [], psd := [] })
+  let partCons := w.parts.toList.map (·.cons)
+  modify fun w => { w with sent := sendOrder mcons w.pepCons w.pepPsd funs partCons }
 
 end Pepit
